@@ -76,15 +76,11 @@ theorem step_rel (rc : Bool) {m : Migration} {db db' : DB} (h : Rel m db) (s : S
         | none =>
           simp only at he
           have := Option.some.inj he; subst this
-          exact step_addColumn_none h t ht c hf hfresh rfl (by
-            show (tb.cols ++ [(colOf c).1]).map (·.name) = _
-            rw [List.map_append, List.map_singleton, hcn]; rfl)
+          exact step_addColumn_none h t ht c hf hfresh rfl rfl
         | first =>
           simp only at he
           have := Option.some.inj he; subst this
-          exact step_addColumn_first h t ht c hf hfresh rfl (by
-            show ((colOf c).1 :: tb.cols).map (·.name) = _
-            rw [List.map_cons, hcn]; rfl)
+          exact step_addColumn_first h t ht c hf hfresh rfl rfl
         | after p =>
           simp only at he
           cases hia : insertAfter p (colOf c).1 tb.cols with
@@ -93,10 +89,7 @@ theorem step_rel (rc : Bool) {m : Migration} {db db' : DB} (h : Rel m db) (s : S
             rw [hia] at he
             simp only at he
             have := Option.some.inj he; subst this
-            obtain ⟨i, hi, hn⟩ := insertAfter_names p (colOf c).1 tb.cols cols' hia
-            exact step_addColumn_after h t ht c p hf hfresh rfl i hi (by
-              show cols'.map (·.name) = _
-              rw [hn, hcn]; rfl)
+            exact step_addColumn_after h t ht c p hf hfresh rfl hia
   | dropColumn t c =>
     have ht : t ≠ "" := by simpa [Stmt.colSafe, Stmt.table] using hs
     simp only [exec] at he
@@ -115,9 +108,7 @@ theorem step_rel (rc : Bool) {m : Migration} {db db' : DB} (h : Rel m db) (s : S
         have hdb : db' = db.replace tbD := (Option.some.inj he).symm
         subst hdb
         have hcol : tb.hasCol c = true := by simpa using hc1
-        obtain ⟨m1, h1, hr⟩ := step_dropColumn h t c ht hf hcol (tb' := tbD) rfl (by
-          show (tb.cols.filter (fun x => x.name != c)).map (·.name) = (tb.cols.map (·.name)).filter (· != c)
-          rw [List.filter_map]; rfl)
+        obtain ⟨m1, h1, hr⟩ := step_dropColumn h t c ht hf hcol (tb' := tbD) rfl rfl
         refine ⟨m1.using_ t, ?_, hr⟩
         unfold step
         simp only [h1, bind, Except.bind, pure, Except.pure]
@@ -137,32 +128,7 @@ theorem step_rel (rc : Bool) {m : Migration} {db db' : DB} (h : Rel m db) (s : S
         have hdb : db' = db.replace tbM := (Option.some.inj he).symm
         subst hdb
         have hcol : tb.hasCol c.name = true := by simpa using hc1
-        obtain ⟨m', h1, hr⟩ := step_modifyColumn h t ht c hf hcol
-        refine ⟨m', h1, ?_⟩
-        -- the reference table keeps its column names: same view
-        obtain ⟨id, _, _, _, hd, _, _, _⟩ := h.lookup hf
-        refine ⟨hr.inv, hr.np, hr.fresh, ?_⟩
-        rw [hr.view, replace_eq_set db h.nodup id tb tbM hd rfl]
-        unfold specView
-        rw [List.map_set]
-        have hcolsame : tbM.colNames = tb.colNames := by
-          show (tb.cols.map (fun x => if x.name == c.name then (colOf c).1 else x)).map (·.name) = tb.cols.map (·.name)
-          rw [List.map_map]
-          apply List.map_congr_left
-          intro x _
-          simp only [Function.comp_apply]
-          split
-          · rename_i hx
-            have : x.name = c.name := by simpa using hx
-            show (colOf c).1.name = x.name
-            rw [this]; rfl
-          · rfl
-        have hget : ((db.map (fun t => (t.name, t.colNames)))[id]?) = some (tb.name, tb.colNames) := by simp [hd]
-        obtain ⟨hi', he'⟩ := List.getElem?_eq_some_iff.mp hget
-        rw [hcolsame]
-        show _ = (db.map (fun t => (t.name, t.colNames))).set id (tb.name, tb.colNames)
-        rw [← he']
-        exact (List.set_getElem_self hi').symm
+        exact step_modifyColumn h t ht c hf hcol (tb' := tbM) rfl rfl
   | renameColumn t o n => simp [Stmt.colSafe] at hs
   | addPrimaryKey t cols =>
     have ht : t ≠ "" := by simpa [Stmt.colSafe, Stmt.table] using hs
@@ -254,6 +220,44 @@ theorem run_rel (rc : Bool) (ss : List Stmt) : ∀ (m : Migration) (db db' : DB)
       simp only [hm1, bind, Except.bind]
       exact hm'
 
+/-- names in the same order + types right by name ⇒ (name, type) pairs in the same order -/
+theorem typed_cols (tm : Table) (tb : TableSpec) (hn : tm.colNames = tb.colNames) (hnd : tb.colNames.Nodup)
+    (hty : TypesOK tm tb) :
+    tm.cols.map (fun c => (c.name, c.cur.typ)) = tb.cols.map (fun c => (c.name, some c.typ)) := by
+  apply List.ext_getElem?
+  intro j
+  simp only [List.getElem?_map]
+  have hj : (tm.cols.map (·.name))[j]? = (tb.cols.map (·.name))[j]? := by
+    have := congrArg (fun l => l[j]?) hn
+    exact this
+  simp only [List.getElem?_map] at hj
+  cases hm : tm.cols[j]? with
+  | none =>
+    rw [hm] at hj
+    cases hb : tb.cols[j]? with
+    | none => rfl
+    | some y => rw [hb] at hj; cases hj
+  | some x =>
+    rw [hm] at hj
+    cases hb : tb.cols[j]? with
+    | none => rw [hb] at hj; cases hj
+    | some y =>
+      rw [hb] at hj
+      have hxy : x.name = y.name := Option.some.inj hj
+      obtain ⟨cs, hcs, hcn, hct⟩ := hty x (List.mem_of_getElem? hm)
+      -- `cs` is the reference column at position `j`: names are unique
+      obtain ⟨k, hk⟩ := List.mem_iff_getElem?.mp hcs
+      have h1 : tb.colNames[k]? = some x.name := by simp [TableSpec.colNames, hk, hcn]
+      have h2 : tb.colNames[j]? = some x.name := by simp [TableSpec.colNames, hb, hxy]
+      have hkl : k < tb.colNames.length := (List.getElem?_eq_some_iff.mp h1).1
+      have hkj : k = j := (List.getElem?_inj hkl hnd).mp (h1.trans h2.symm)
+      subst hkj
+      rw [hk] at hb
+      have : cs = y := Option.some.inj hb
+      subst this
+      simp only [Option.map_some]
+      rw [hxy, hct]
+
 /-- **C05, names and positions.**  For every script (any length) over the vocabulary without RENAME COLUMN / RENAME
     INDEX that the reference engine accepts from the empty schema, the MySQL reader model loads it without error, and
     the loaded model has exactly the reference schema's tables, in the same order, each with exactly the reference
@@ -263,6 +267,44 @@ theorem fidelity (rc : Bool) (ss : List Stmt) (db : DB) (hs : ss.all Stmt.colSaf
     ∃ m, run {} ss = .ok m ∧ colView m = specView db ∧ m.Inv ∧ m.NoPending := by
   obtain ⟨m, hm, hr⟩ := run_rel rc ss {} [] db Rel.empty hs he
   exact ⟨m, hm, hr.view, hr.inv, hr.np⟩
+
+/-- the typed view: table name and, in order, every column's name and type text -/
+def typedView (m : Migration) : List (String × List (String × Option String)) :=
+  m.tables.map (fun t => (t.name, t.cols.map (fun c => (c.name, c.cur.typ))))
+def typedSpec (db : DB) : List (String × List (String × Option String)) :=
+  db.map (fun t => (t.name, t.cols.map (fun c => (c.name, some c.typ))))
+
+/-- **C05, names, positions and types.**  … and every column carries exactly the type the reference schema gives it. -/
+theorem fidelity_typed (rc : Bool) (ss : List Stmt) (db : DB) (hs : ss.all Stmt.colSafe = true)
+    (he : execAll rc [] ss = some db) :
+    ∃ m, run {} ss = .ok m ∧ typedView m = typedSpec db := by
+  obtain ⟨m, hm, hr⟩ := run_rel rc ss {} [] db Rel.empty hs he
+  refine ⟨m, hm, ?_⟩
+  unfold typedView typedSpec
+  apply List.ext_getElem?
+  intro i
+  simp only [List.getElem?_map]
+  have hv : (colView m)[i]? = (specView db)[i]? := by rw [hr.view]
+  simp only [colView, specView, List.getElem?_map] at hv
+  cases hmi : m.tables[i]? with
+  | none =>
+    rw [hmi] at hv
+    cases hdi : db[i]? with
+    | none => rfl
+    | some y => rw [hdi] at hv; cases hv
+  | some tm =>
+    rw [hmi] at hv
+    cases hdi : db[i]? with
+    | none => rw [hdi] at hv; cases hv
+    | some tb =>
+      rw [hdi] at hv
+      have hv := Option.some.inj hv
+      have hn : tm.name = tb.name := (Prod.mk.inj hv).1
+      have hc : tm.colNames = tb.colNames := (Prod.mk.inj hv).2
+      have hnd : tb.colNames.Nodup := by
+        rw [← hc]; exact (hr.inv.each tm (List.mem_of_getElem? hmi)).cols.nodup
+      simp only [Option.map_some]
+      rw [hn, typed_cols tm tb hc hnd (hr.types i tm tb hmi hdi)]
 
 end ReaderMysql
 end Sqlize
